@@ -55,11 +55,24 @@ func c15Jobs() []c15Job {
 	)
 	// scripts: one that throws while it holds arguments (under ignore_error), one that looks for globals it was not given
 	jsThrow := `{` + h("csv") + `,"file_declaration":{"delimiter":",","data_row_index":1,"columns":[{"name":"A"}]},"transform_declarations":{"FINAL_OUTPUT":{"object":{"a":{"xpath":"A"},"t":{"custom_func":{"name":"javascript","ignore_error":true,"args":[{"const":"if (secret != '') { throw 'no: ' + secret } 1"},{"const":"secret"},{"xpath":"A"},{"const":"JSON"},{"const":"shadow"}]}},"u":{"custom_func":{"name":"javascript_with_context","ignore_error":true,"args":[{"const":"throw _node"}]}}}}}}`
-	jsProbe := `{` + h("csv") + `,"file_declaration":{"delimiter":",","data_row_index":1,"columns":[{"name":"A"}]},"transform_declarations":{"FINAL_OUTPUT":{"object":{"a":{"xpath":"A"},"p":{"custom_func":{"name":"javascript","args":[{"const":"[typeof secret, typeof _node, typeof JSON, typeof a, typeof v].join('|')"}]}},"q":{"custom_func":{"name":"javascript","args":[{"const":"(typeof secret == 'undefined') ? 'n/a' : secret"}]}}}}}}`
+	jsProbe := `{` + h("csv") + `,"file_declaration":{"delimiter":",","data_row_index":1,"columns":[{"name":"A"}]},"transform_declarations":{"FINAL_OUTPUT":{"object":{"a":{"xpath":"A"},"p":{"custom_func":{"name":"javascript","args":[{"const":"[typeof secret, typeof _node, typeof JSON, typeof a, typeof v, typeof k, typeof t, typeof K, typeof cnt, typeof dbl, typeof seen, typeof helper].join('|')"}]}},"q":{"custom_func":{"name":"javascript","args":[{"const":"(typeof secret == 'undefined') ? 'n/a' : secret"}]}}}}}}`
 	upperSchema := `{` + h("csv") + `,"file_declaration":{"delimiter":",","data_row_index":1,"columns":[{"name":"A"}]},"transform_declarations":{"FINAL_OUTPUT":{"object":{"u":{"custom_func":{"name":"upper","args":[{"xpath":"A"}]}},"l":{"custom_func":{"name":"lower","args":[{"xpath":"A"}]}}}}}}`
 	jobs = append(jobs,
 		c15Job{Name: "js-throwing-while-holding-arguments", Schema: jsThrow, Input: "s3cret\nx\n"},
 		c15Job{Name: "js-looking-for-globals", Schema: jsProbe, Input: "r1\nr2\n"},
+		// scripts with declarations at their top level (const, let, class, var, function) and with variables
+		// they assign without declaring: every record, every transform and every other script finds the
+		// VM's global scope as it was
+		c15Job{Name: "js-top-level-declarations", Schema: `{` + h("json") + `,"transform_declarations":{"FINAL_OUTPUT":{"xpath":"/*","object":{
+  "a_const":{"custom_func":{"name":"javascript","args":[{"const":"const k = 2; k * n"},{"const":"n"},{"xpath":"n","type":"int"}]}},
+  "b_let":{"custom_func":{"name":"javascript","args":[{"const":"let t = n + 1; t"},{"const":"n"},{"xpath":"n","type":"int"}]}},
+  "c_class":{"custom_func":{"name":"javascript","args":[{"const":"class K { v() { return n * 3 } }; new K().v()"},{"const":"n"},{"xpath":"n","type":"int"}]}},
+  "d_var":{"custom_func":{"name":"javascript","args":[{"const":"var cnt = (typeof cnt === 'undefined') ? 1 : cnt + 1; cnt"}]}},
+  "e_function":{"custom_func":{"name":"javascript","args":[{"const":"function dbl(x) { return x * 2 }; dbl(n)"},{"const":"n"},{"xpath":"n","type":"int"}]}},
+  "f_undeclared":{"custom_func":{"name":"javascript","args":[{"const":"if (typeof seen === 'undefined') { seen = 0 }; seen += 1; seen"}]}},
+  "g_helper":{"custom_func":{"name":"javascript","args":[{"const":"helper = function(x) { return 'h' + x }; helper(n)"},{"const":"n"},{"xpath":"n","type":"int"}]}},
+  "h_probe":{"custom_func":{"name":"javascript","args":[{"const":"[typeof k, typeof t, typeof K, typeof cnt, typeof dbl, typeof seen, typeof helper].join('|')"}]}}}}}}`,
+			Input: `[{"n":1},{"n":2},{"n":3}]`},
 		c15Job{Name: "upper-with-callers-extension", Schema: upperSchema, Input: "alice\nBOB\n", CustomUpper: true},
 		c15Job{Name: "upper-with-builtin-extension", Schema: upperSchema, Input: "alice\nBOB\n"},
 	)
